@@ -307,11 +307,11 @@ func c10(c *Ctx) {
 		}(hi, h)
 	}
 	// ---------- (b2) TGT renewal / re-login during a history: short-lived TGTs, direct oracles only ----------
-	for vi := 0; vi < 5; vi++ {
+	for vi := 0; vi < 6; vi++ {
 		wg.Add(1)
 		go func(vi int) {
 			defer wg.Done()
-			renewable := vi%2 == 0
+			renewable := vi%2 == 0 || vi == 5
 			kk := kdc.New(realm)
 			kk.AddPrincipal([]string{"testuser1"}, "passwordvalue", 2)
 			spns := [][]string{{"HTTP", "a.test.gokrb5"}, {"HTTP", "b.test.gokrb5"}, {"HTTP", "c.test.gokrb5"}}
@@ -354,6 +354,19 @@ func c10(c *Ctx) {
 			if vi == 4 {
 				// an idle client: two renewal points pass without any request, then a new SPN is asked for
 				sleeps = []int{0, 9000, 0}
+				order = []int{0, 1, 2}
+			}
+			if vi == 5 {
+				// an outage across the expiry of a renewable TGT: the KDC answers nothing but errors from 2 s to 5.5 s
+				// (the background renewal fails, the TGT expires at about 4 s); afterwards the client still has its
+				// password and must get tickets again
+				go func() {
+					time.Sleep(2 * time.Second)
+					kk.SetErrorCode(60)
+					time.Sleep(3500 * time.Millisecond)
+					kk.SetErrorCode(0)
+				}()
+				sleeps = []int{0, 6500, 300}
 				order = []int{0, 1, 2}
 			}
 			for i := range sleeps {
